@@ -188,58 +188,38 @@ fn build_patches_recursive<T: SizedType>(
                     .unwrap_or(0.0)
             };
 
-            // First anchor the children whose shape is completely identical: a partial match
-            // (several small patches) must never displace the exact match of an unchanged subtree.
-            let anchors = lcs_by_score(
+            // Match the children in one pass. A pair whose shape is completely identical weighs more
+            // than every partial match taken together, so a partial match (several small patches)
+            // never displaces the exact match of an unchanged subtree; among the ways of pairing
+            // identically shaped siblings, the one that leaves room for the best partial matches
+            // of the remaining children wins (anchoring the identical ones first and matching the
+            // rest only in the gaps could strand an edited child on the wrong side of an anchor).
+            let exact_weight = child_patches_map
+                .iter()
+                .map(|(_, _, score)| *score)
+                .sum::<f64>()
+                + 1.0;
+            let pairing = lcs_by_score(
                 &old_c_with_id,
                 &new_c_with_id,
-                |(_, old), (_, new)| {
-                    if nodes_match(old, new) { 1.0 } else { 0.0 }
+                |(oid, old), (nid, new)| {
+                    if nodes_match(old, new) {
+                        exact_weight
+                    } else {
+                        patch_score(oid, nid)
+                    }
                 },
             );
-
-            // Then match the remaining children between two consecutive anchors by their partial score.
-            let mut matched = Vec::new();
-            let (mut old_from, mut new_from) = (0, 0);
-            let match_gap = |old_from: usize,
-                             new_from: usize,
-                             old_to: usize,
-                             new_to: usize,
-                             matched: &mut Vec<(usize, usize)>| {
-                let gap = lcs_by_score(
-                    &old_c_with_id[old_from..old_to],
-                    &new_c_with_id[new_from..new_to],
-                    |(oid, _old), (nid, _new)| patch_score(oid, nid),
-                );
-                for result in &gap {
-                    if let DiffResult::Common {
+            let matched: Vec<(usize, usize)> = pairing
+                .iter()
+                .filter_map(|result| match result {
+                    DiffResult::Common {
                         old_index,
                         new_index,
-                    } = result
-                    {
-                        matched.push((old_from + old_index, new_from + new_index));
-                    }
-                }
-            };
-            for result in &anchors {
-                if let DiffResult::Common {
-                    old_index,
-                    new_index,
-                } = result
-                {
-                    match_gap(old_from, new_from, *old_index, *new_index, &mut matched);
-                    matched.push((*old_index, *new_index));
-                    old_from = old_index + 1;
-                    new_from = new_index + 1;
-                }
-            }
-            match_gap(
-                old_from,
-                new_from,
-                old_children.len(),
-                new_children.len(),
-                &mut matched,
-            );
+                    } => Some((*old_index, *new_index)),
+                    _ => None,
+                })
+                .collect();
 
             // Collect patches of the matched pairs
             let mut c_patches = HashSet::new();
